@@ -105,8 +105,9 @@ INVENTORY = [
      "Model/UrlCrawl.v (both filters of the crate); link_iter_never_panics, link_iter_v0_refuted; FIXED fa13a8b; components urls.iter (compared), explore.urls"),
     ("extensions/src/templates.rs extract_templates / handle_template (file content: the operator's templates and the pages that name them)",
      "file.slice(start..end) x2; start_byte.take().unwrap() x5; &file[start..position - 1]; file[..=first_line_end]; file[placeholder_start + 2..position]",
-     "not modelled; FIXED fe1115a (an empty last template); component explore.file: template files bounded-exhaustively over {$[ a ] LF CRLF \\ SP}, "
-     "pages with every placeholder shape"),
+     "Model/Templates.v (extract_templates, handle_template, the lazy lookup between them); template_engine_never_panics, template_engine_v0_refuted; "
+     "FIXED fe1115a (an empty last template); components tmpl.render (compared: what the real engine renders through handle_cache) and explore.file: "
+     "template files and page bodies bounded-exhaustively over {$[ a b ] LF CRLF \\ SP}"),
     ("extensions/src/lib.rs download / cache / hide / ip_allow (Present), push (Post)", "argument parsers (split(':'), parse::<IpAddr>(), str::parse for cache "
      "preferences); c.replace(0..data_start, ..) in hide; &path[..=last_slash] in push (HTTP/2 only)",
      "not modelled; linked into the exploration host (kvarn_extensions::mount_all): fixture pages and generated first lines (explore.file); push runs "
@@ -786,6 +787,8 @@ def extra_coverage(cases, impl, model, spec):
                                 "headers, files, templates, stream_body, a query-parsing and a body-reading handler, a rate-limited host): their 'model' is "
                                 "the constant 'ends cleanly'",
             "panics_observed": sum(1 for c in cases if c.id in impl and c.meta.get("kind") != "live-accounting" and extra_oracle(c, impl[c.id])),
+            "not_executed_ids": [{"id": c.id, "component": c.comp, "kind": c.meta.get("kind"), "missing": ("implementation" if c.id not in impl else "model")}
+                                 for c in cases if c.id not in impl or c.id not in model][:50],
             "live_cases": sum(1 for c in cases if c.comp in LIVE),
             "live_cases_not_executed": [{"id": k, "component": v[0], "kind": v[1], "why": v[2]} for k, v in sorted(TROUBLE.items())],
             "live_cases_not_executed_limit": trouble_limit(cases)}
@@ -825,7 +828,8 @@ RULE = ("No PANIC outcome anywhere (oracle independent of the models), and the m
         "cors.check (Origin, C13's generator); hosts.lookup (Host, C15's generator); pathsan.direct (targets over {/ . % 2 e f a %2e %2f %ff}); "
         "query.parse / query.iter / pathquery (query strings over {a b = & % 2 %26 %3d e-acute +}, every next/next_back script up to length 4, "
         "specification: the values of the name in order); present.parse (first lines of served files over {! > SP & CR LF a n o c e = \" '}); urls.iter (url_crawl::LinkIter, three filters, "
-        "words over the link syntax and mutated HTML vs. Model/UrlCrawl.v). "
+        "words over the link syntax and mutated HTML vs. Model/UrlCrawl.v); tmpl.render (a '!> tmpl' page and its template file through handle_cache: the rendered body vs. Model/Templates.v; "
+        "template files and page bodies bounded-exhaustively over {$[ a b ] LF CRLF \\ SP} up to 4 / 5 tokens, random compositions). "
         "PLUS EXPLORATION (a test, not a proof; the 'model' is 'ends cleanly'): explore.conn — the special heads, mutated valid requests (all header kinds above, "
         "pipelined, with random TCP segmentation), every header the core / a vary rule / an extension reads with values of 0..2 bytes that are not text or not UTF-8, several requests to a "
         "rate-limited host (429, drop) — over loopback to the real kvarn::handle_connection on hosts with Extensions::new() + kvarn_extensions::mount_all + CORS "
@@ -851,13 +855,15 @@ ASSUMPTIONS = [
     "the time crate 0.3.55 without the large-dates feature (weekday parsed but not checked, optional sign before a four-digit year) — a crate update "
     "that changes the parser shows up as a mismatch of ims.decide; the model takes the generator's clock for the entry's creation time, values within two "
     "days of it are not compared (C04 decides those to the second)",
-    "Model/UrlCrawl.v and the template / Present code of kvarn-extensions work on FILE or UPSTREAM content, not on request bytes (the property's "
-    "quantifier over served files); the HTTP/2 push extension itself (which calls url_crawl) is not reached: HTTP/1 only",
+    "Model/UrlCrawl.v, Model/Templates.v and the Present code of kvarn-extensions work on FILE or UPSTREAM content, not on request bytes (the property's "
+    "quantifier over served files); the HTTP/2 push extension itself (which calls url_crawl) is not reached: HTTP/1 only; Model/Templates.v takes ONE "
+    "template file per page (the code tries the named files in reverse order until one has the template) and template names that are valid UTF-8 byte strings",
 ]
 TRUSTED = ["modelled here (Model/Panics.v): utils/src/parse.rs query, Query::{insert,index_of,iterate_to_first,iterate_to_last}, QueryPairIter "
            "(repaired code, commit 55bc7f7), src/comprash.rs PathQuery, src/extensions.rs stream_body (window arithmetic and the chunk loop); "
            "Model/Ims.v: the If-Modified-Since test of handle_cache incl. the time crate's parser for HTTP_DATE; Model/UrlCrawl.v: url_crawl::LinkIter "
-           "(repaired code, commit fa13a8b) and its two filters",
+           "(repaired code, commit fa13a8b) and its two filters; Model/Templates.v: kvarn-extensions' extract_templates (repaired code, commit fe1115a) and "
+           "handle_template",
            "borrowed models (tied by their own properties and re-run here): Http1Read.v, Range.v, RangeConn.v, PathSan.v, Negotiate.v, Cors.v, Hosts.v, "
            "PresentLine.v, Limiter.v, Nonce.v",
            "harness/src/c02.rs, c02conn.rs (loopback client, counting panic hook, real server on a locked port, fixture tree), c07.rs (scripted reader), c09.rs, c06.rs, c13.rs, c15.rs, c01.rs, c16.rs",
@@ -875,8 +881,8 @@ LEVEL_TEXT = ("Machine-checked Coq theorems: every modelled parser / decision fu
               "transcriptions with every slice / index / unwrap / checked arithmetic explicit and are tied to the code on every run by a "
               "differential run in which a panic must be predicted exactly — the composition itself by the class of the answer of the real handle_connection —, plus a "
               "model-independent no-panic oracle; three defects found on the way are repaired and their old behaviour kept as refuted statements where modelled "
-              "(Query::get_last always panicked; url_crawl::LinkIter on an unclosed quote; kvarn-extensions' template parser on an empty last template — the latter found and guarded by exploration only). "
-              "What is NOT modelled (http, moka, tokio, compressors, TLS/h2/h3, vary lookup, CSP, MIME detection, kvarn-extensions' Present code) is covered by exploration runs against live "
+              "(Query::get_last always panicked; url_crawl::LinkIter on an unclosed quote; kvarn-extensions' template parser on an empty last template). "
+              "What is NOT modelled (http, moka, tokio, compressors, TLS/h2/h3, vary lookup, CSP, MIME detection, kvarn-extensions' other Present code) is covered by exploration runs against live "
               "connections, a live server (whose connection count must return to idle) and generated file contents only — a test, not a proof.")
 LEVEL_NOTE = ("Partial by construction: panic-freedom is proved for the modelled functions (see coverage.inventory for the table of partial "
               "operations and what covers each) and tested for the rest. Trusted: Coq kernel, extraction (reduced by the kernel recheck sample), "
